@@ -54,6 +54,11 @@ pub fn exec(out: &mut impl Write, target: &str, arg: u64, bytes: &[u8]) {
             let b = bytes.to_vec();
             measure(move || match aquatic_ws_protocol::outgoing::OutMessage::from_ws_message(tungstenite::Message::binary(b)) { Ok(_) => "ok".to_string(), Err(_) => "err".to_string() })
         }
+        "wsguard" => {
+            // the nesting guard by itself, with the limit the message parsers use
+            let b = bytes.to_vec();
+            measure(move || if aquatic_ws_protocol::common::json_nesting_exceeds(&b, aquatic_ws_protocol::common::MAX_JSON_NESTING) { "exceeds".to_string() } else { "within".to_string() })
+        }
         "peerid" => {
             let mut a = [0u8; 20];
             for (i, x) in bytes.iter().take(20).enumerate() { a[i] = *x; }
@@ -169,6 +174,29 @@ fn ws_out_seed(r: &mut Sm) -> Vec<u8> {
     v[i].clone().into_bytes()
 }
 
+/// JSON text whose nesting is hard to count: string values made of escapes, quotes and brackets, then a run
+/// of nested arrays / objects around the limit of the guard or deep enough to matter for the stack
+fn json_tricky(r: &mut Sm) -> Vec<u8> {
+    let pieces = ["\\\\", "\\\"", "[", "{", "]", "}", "a", "\\u005c", "\\u0022", "\\\\\\\\", "\\n", " ", "é"];
+    let mut t = String::from("{");
+    let nstr = r.below(4) as usize;
+    for k in 0..nstr {
+        let mut v = String::new();
+        for _ in 0..r.below(5) { v.push_str(pieces[r.below(pieces.len() as u64) as usize]); }
+        // often end the string in an escaped backslash or an escaped quote
+        match r.below(4) { 0 => v.push_str("\\\\"), 1 => v.push_str("\\\""), _ => {} }
+        t.push_str(&format!("\"k{}\":\"{}\",", k, v));
+    }
+    let d = r.pick(&[1usize, 30, 31, 32, 33, 34, 40, 2000, 6000, 12000]);
+    let (open, close) = if r.chance(50) { ("[", "]") } else { ("{\"a\":", "}") };
+    let closed = r.chance(70);
+    t.push_str("\"x\":");
+    t.push_str(&open.repeat(d));
+    if closed { t.push('1'); t.push_str(&close.repeat(d)); t.push('}'); }
+    if r.chance(30) { t = format!("{{\"action\":\"announce\",{}", &t[1..]); }
+    t.into_bytes()
+}
+
 fn pending_file() -> std::path::PathBuf {
     let mut d = std::env::current_exe().unwrap();
     d.pop();
@@ -189,15 +217,16 @@ fn run_case(out: &mut impl Write, seed: u64, case: usize, pending: Option<&std::
         out.write_all(&buf).unwrap();
         out.flush().unwrap();
     };
-    let target = r.pick(&["udpreq", "udpreq", "udpresp", "httpreq", "httpreq", "httpresp", "wsin", "wsin", "wsout", "peerid", "aclline"]);
+    let target = r.pick(&["udpreq", "udpreq", "udpresp", "httpreq", "httpreq", "httpresp", "wsin", "wsin", "wsout", "wsguard", "peerid", "aclline"]);
     let arg: u64 = match target { "udpreq" => r.pick(&[0u64, 1, 3, 70, 255]), _ => r.below(2) };
     let seedb: Vec<u8> = match target {
         "udpreq" => udp_seed(&mut r),
         "udpresp" => udp_resp_seed(&mut r),
         "httpreq" => http_seed(&mut r),
         "httpresp" => http_resp_seed(&mut r),
-        "wsin" => ws_seed(&mut r),
-        "wsout" => ws_out_seed(&mut r),
+        "wsin" => if r.chance(25) { json_tricky(&mut r) } else { ws_seed(&mut r) },
+        "wsout" => if r.chance(25) { json_tricky(&mut r) } else { ws_out_seed(&mut r) },
+        "wsguard" => if r.chance(70) { json_tricky(&mut r) } else if r.chance(50) { ws_seed(&mut r) } else { ws_out_seed(&mut r) },
         "peerid" => { let p = r.pick(&[&b"-TR3000-"[..], &b"-qB4520-"[..], &b"M4-3-6--"[..], &b"-UT355W-"[..], &b"A2-1-20-"[..], &b"\xff\xff\xff\xff\xff\xff\xff\xff"[..], &b"--------"[..], &b"-AZ\x00\x00\x00\x00-"[..]]); let mut v = p.to_vec(); while v.len() < 20 { v.push(r.next() as u8); } v }
         _ => r.pick(&[&b"aaaaaaaaaaaaaaaaaaaaaaaaaaaaaaaaaaaaaaaa"[..], &b" 0123456789abcdef0123456789abcdef01234567  "[..], &b"0123456789abcdef0123456789abcdef0123456"[..], &b"zz23456789abcdef0123456789abcdef01234567"[..], &b""[..], &b"\xc3\xa9\xc3\xa9\xc3\xa9\xc3\xa9\xc3\xa9\xc3\xa9\xc3\xa9\xc3\xa9\xc3\xa9\xc3\xa9\xc3\xa9\xc3\xa9\xc3\xa9\xc3\xa9\xc3\xa9\xc3\xa9\xc3\xa9\xc3\xa9\xc3\xa9\xc3\xa9"[..]]).to_vec(),
     };
